@@ -41,6 +41,8 @@ Snap == [kind |-> "snapshot", data |-> NIL]
 Rest(d) == [kind |-> "restore", data |-> d]
 CallsSRS == <<Snap, Rest("blob"), Snap>>
 CallsS == <<Snap>>
+CallsSR == <<Snap, Rest("blob")>>
+WrongInit == {"wrong:init"}
 CallsInit == <<[kind |-> "init", data |-> NIL], Snap>>
 CallsNone == <<>>
 
@@ -49,6 +51,7 @@ CrashFaults == {"endNoBegin", "beginNeg", "unknown"}
 NoFaults == {}
 CloseOnly == {"close", "die"}
 StrayOnly == {"emptyReq", "extraKeepalive"}
+AllReqFaults == ReqFaults
 
 \* layout law on its own: split into typed maps and merged again = identity (all field maps over 2 names x 4 types x 2 values)
 Vals == {"0", "1"}
